@@ -5,7 +5,7 @@ Tie: (1) translator (tables), (2) field-by-field correspondence between the real
 insts.Disassembler.Decode (driven by harness/cmd/c04) and the Gallina model on
 encoder-made, hostile, random, mutated, truncated and shipped instruction words,
 and on the sequential decode of every shipped kernel."""
-import collections, json, os, sys
+import collections, json, os, re, sys
 sys.path.insert(0, os.path.dirname(os.path.dirname(os.path.abspath(__file__))))
 import vlib
 
@@ -39,6 +39,38 @@ def is_sdwa_vop2(buf):
     return w >> 31 == 0 and (w >> 25) not in (0x3e, 0x3f) and (w & 0x1ff) == 0xf9
 
 
+def norm_mnemonic(n):
+    """llvm-objdump and the decode table differ in naming conventions only: encoding
+    suffixes and the global_/scratch_ spelling of FLAT instructions with SADDR=off"""
+    n = re.sub(r'_(e32|e64|sdwa|dpp)$', '', n)
+    n = re.sub(r'^(global|scratch)_', 'flat_', n)
+    return n
+
+
+def ref_rows(path, name):
+    txt = open(path).read()
+    txt = txt[txt.index('Definition ' + name):]
+    return re.findall(r'mkRow "([^"]*)" (\d+) (\w+) (\d+) (\d+) (\d+) (\d+) (\d+) (\d+)', txt)
+
+
+def reference_diff():
+    """Rows of the committed reference table that the regenerated table no longer
+    contains unchanged, as replayable word cases (encoding | opcode << lo, zero fields)."""
+    gen = set(ref_rows(os.path.join(vlib.COQ, 'gen', 'DecodeTable.v'), 'decode_table'))
+    ref = ref_rows(os.path.join(vlib.COQ, 'isa', 'RefTable.v'), 'ref_table')
+    ftxt = open(os.path.join(vlib.COQ, 'gen', 'FormatTable.v')).read()
+    fmts = {m[0]: (int(m[1]), int(m[2])) for m in re.findall(r'mkFormat (\w+) "[^"]*" (\d+) \d+ \d+ (\d+) \d+', ftxt)}
+    out = []
+    for r in ref:
+        if r in gen or r[2] not in fmts:
+            continue
+        enc, lo = fmts[r[2]]
+        w0 = enc | (int(r[1]) << lo)
+        out.append({'kind': 'refrow', 'cdna3': False, 'bytes': w0.to_bytes(4, 'little').hex() + '00000000',
+                    'want': r[0], 'source': 'coq/isa/RefTable.v: %s opcode %s format %s widths %s' % (r[0], r[1], r[2], '/'.join(r[4:]))})
+    return out, len(gen - set(ref))
+
+
 def known_kernel_gap(c):
     return (c['kind'] == 'kernel' and c.get('status') == 1 and c.get('errfmt') == 'vop3a' and c.get('errop') == 499
             and c.get('kernel') == 'rotate_tensor' and c.get('file', '').endswith('operator_gfx942.hsaco'))
@@ -55,6 +87,19 @@ def monitor(c):
         return None, False
     o = c['obs']
     buf = bytes.fromhex(c.get('bytes', ''))
+    if c['kind'] == 'refrow':
+        return ('reference row changed (%s): the word %s now decodes to %s' %
+                (c.get('source'), c['bytes'][:8].upper(), o.get('name') if o['outcome'] == 'ok' else o['outcome'])), False
+    if c['kind'] == 'listing':
+        if o['outcome'] != 'ok':
+            return ('%s: the vendor listing disassembles %s as %s, Decode returns %s' %
+                    (c.get('source'), c['bytes'], c['want'], o['outcome'])), False
+        if norm_mnemonic(o['name']) != norm_mnemonic(c['want']):
+            return ('%s: the vendor listing disassembles %s as %s, Decode returns %s' %
+                    (c.get('source'), c['bytes'], c['want'], o['name'])), (c['want'] == 'v_mov_b64_e32' and o['name'] == 'v_movrelsd_b32')
+        if o['size'] != c['wantsize']:
+            return ('%s: %s (%s) occupies %d bytes in the vendor listing, Decode reports %d' %
+                    (c.get('source'), c['want'], c['bytes'], c['wantsize'], o['size'])), False
     if o['outcome'] == 'fault':
         return 'Decode panics on %s: %s' % (c['bytes'] or '<empty>', o.get('msg', '')), False
     if not o['agree']:
@@ -76,7 +121,7 @@ def monitor(c):
 
 
 def strip(c):
-    keys = ('kind', 'cdna3', 'bytes', 'desc', 'valid', 'file', 'kernel')
+    keys = ('kind', 'cdna3', 'bytes', 'desc', 'valid', 'file', 'kernel', 'want', 'wantsize', 'source')
     return {k: c[k] for k in keys if k in c and c[k] is not None}
 
 
@@ -161,6 +206,12 @@ def main(argv):
         if corpus:
             cases, log = run_impl(binary, cases=[strip(c) for c in corpus])
             cases = cases or []
+        refcases, new_rows = reference_diff()
+        rep.coverage['table_rows_not_in_reference'] = new_rows
+        rep.coverage['reference_rows_changed'] = len(refcases)
+        if refcases:
+            rc, log = run_impl(binary, cases=refcases[:50])
+            cases += rc or []
         gen, log = run_impl(binary, seed=vlib.seed(), n=n, kwords=kwords)
         if gen is None:
             rep.obligation('harness run', False)
@@ -174,7 +225,7 @@ def main(argv):
     known = [(i, t) for i, (t, known) in enumerate(verdicts) if t and known]
     seen_known = set()
     for i, t in known:
-        key = 'vop3a-opcode-499-missing'
+        key = 'vop3a-opcode-499-missing' if cases[i]['kind'] == 'kernel' else 'vop1-opcode-56-cdna3-v-mov-b64'
         if key not in seen_known:
             seen_known.add(key)
             rep.known_finding(t, key=key, replay_obj={'property': PROP, 'what': t,
@@ -183,7 +234,9 @@ def main(argv):
     # ---- correspondence with the model
     mism, okc, clog = [], True, ''
     if coq_ok:
-        wordcases = [(i, c) for i, c in enumerate(cases) if c['kind'] != 'kernel']
+        lst = [i for i, c in enumerate(cases) if c['kind'] == 'listing']
+        keep = set(lst if thorough else [i for k, i in enumerate(lst) if (k * 2654435761 + vlib.seed()) % 7 == 0])
+        wordcases = [(i, c) for i, c in enumerate(cases) if c['kind'] != 'kernel' and (c['kind'] != 'listing' or i in keep)]
         kcases = [(i, c) for i, c in enumerate(cases) if c['kind'] == 'kernel']
         okc, mm, clog = vlib.eval_cases(PROP, HEADER, [c['coq'] for _, c in wordcases], shard_size=120, ty='case')
         mism = [(wordcases[a][0], b) for a, b in mm]
@@ -207,6 +260,8 @@ def main(argv):
         'traces_validated_against_impl': len(cases),
         'case_kinds': dict(kinds), 'outcomes': dict(outcomes), 'decoded_formats': dict(formats),
         'distinct_mnemonics_decoded': len({c['obs'].get('name') for c in cases if c['kind'] != 'kernel' and c['obs']['outcome'] == 'ok'}),
+        'vendor_listing_lines_checked': kinds.get('listing', 0),
+        'vendor_listing_mnemonics': len({c.get('want') for c in cases if c['kind'] == 'listing'}),
         'kernels': kinds.get('kernel', 0),
         'kernel_instructions': sum(c.get('count', 0) for c in cases if c['kind'] == 'kernel'),
         'kernels_consumed_exactly': sum(1 for c in cases if c['kind'] == 'kernel' and c.get('status', 0) == 0),
